@@ -98,7 +98,7 @@ def crossed(draw):
 def slow_cases():
     for g in games.slow_choice_games():
         for prune in (True, False):
-            yield dict(game=g, prune=prune)
+            yield dict(game=g, prune=prune, allow_slow=True)
 
 
 def phases(tier):
@@ -112,7 +112,7 @@ def check_case(case):
     v = Verdict()
     game, prune = case["game"], case["prune"]
     v.cls("prune" if prune else "no_prune")
-    facts = GameFacts(game)
+    facts = GameFacts(game, allow_slow=bool(case.get("allow_slow")))
     try:
         if facts.too_slow:
             v.inconclusive = "T>300"
